@@ -93,16 +93,23 @@ func limitChunkMatches(file *zoekt.FileMatch, limit int) int {
 			// lines from it, where N is the difference between the line number
 			// of the end of the old last Range and that of the new last Range.
 			// This calculation is correct in the presence of both context lines
-			// and multiline Ranges, taking into account that Content never has
-			// a trailing newline.
+			// and multiline Ranges.
 			n := cm.Ranges[len(cm.Ranges)-1].End.LineNumber - cm.Ranges[limit-1].End.LineNumber
 			if n > 0 {
-				for b := len(cm.Content) - 1; b >= 0; b-- {
+				// Content consists of whole lines, each including its terminating
+				// newline if it has one. A newline at the very end of Content
+				// terminates the last line rather than separating two lines, so it
+				// must not be counted, and the new last line keeps its terminator.
+				end, keep := len(cm.Content), 0
+				if end > 0 && cm.Content[end-1] == '\n' {
+					end, keep = end-1, 1
+				}
+				for b := end - 1; b >= 0; b-- {
 					if cm.Content[b] == '\n' {
 						n -= 1
 					}
 					if n == 0 {
-						cm.Content = cm.Content[:b]
+						cm.Content = cm.Content[:b+keep]
 						break
 					}
 				}
